@@ -57,7 +57,9 @@ def check(prog: Program, tier: str) -> Result:
     n_claims = _r17_4(prog, res, tier)
     _r17_5(prog, res)
     _r17_6(prog, res)
-    res.floors.update({"R17.1": 12, "R17.2": 10, "R17.3": 4, "R17.4": 40, "R17.5": 6, "R17.6": 4})
+    _r17_7(prog, res)
+    _r17_8(prog, res)
+    res.floors.update({"R17.1": 12, "R17.2": 10, "R17.3": 4, "R17.4": 40, "R17.5": 6, "R17.6": 4, "R17.7": 2, "R17.8": 1})
     res.analysed["bound_claims"] = n_claims
     return res
 
@@ -563,6 +565,55 @@ def _r17_4(prog: Program, res: Result, tier: str) -> int:
     return len(claims)
 
 
+# ------------------------------------------------------------------------------------------------ R17.7
+def _r17_7(prog: Program, res: Result) -> None:
+    """Every condition is judged on its own: in the per-node loops of the condition rewrites no variable that the
+    loop modifies (flags 'always true/false', sets of redundant operands, bound tables) may be read before it was
+    re-initialised in the same iteration - otherwise a contradiction found in one and/or expression marks every later
+    expression of the module (definite-assignment analysis of the loop body, sa/loopstate.py)."""
+    from ..loopstate import loop_carried
+    from ..model import ancestors
+    n = 0
+    for fn in prog.funcs.values():
+        if fn.mod.name != "symbolic_math" or not fn.is_fix:
+            continue
+        for loop in walk_own(fn.node):
+            if not isinstance(loop, ast.For) or any(isinstance(a, (ast.For, ast.While)) for a in ancestors(loop) if a is not loop):
+                continue
+            if not any(isinstance(y, (ast.Yield, ast.YieldFrom)) for y in ast.walk(loop)):
+                continue
+            n += 1
+            carried = loop_carried(loop)
+            head = f"for {norm(loop.target)} in {short(loop.iter, 50)}"
+            if not carried:
+                res.ok("R17.7", fn.loc(loop), fn.fq, head, "every variable the loop modifies is re-initialised before it is read in the same iteration")
+            for name, node in sorted(carried.items()):
+                res.bad("R17.7", fn.loc(node), fn.fq, f"{head}: '{name}'",
+                        f"'{name}' is modified in the loop but read at line {node.lineno} without having been re-initialised in the same iteration: "
+                        "what was concluded about one condition is carried over to the next one")
+    if n == 0:
+        res.errors.append("R17.7: no per-node loop found in the condition rewrites of symbolic_math")
+
+
+# ------------------------------------------------------------------------------------------------ R17.8
+def _r17_8(prog: Program, res: Result) -> None:
+    """The negation helper builds a NEW condition: if it flipped operators inside the tree it was given, the original
+    condition - still referenced by the statement being rewritten, by enclosing replacement nodes and by the cached
+    parse of the text - would change its meaning as well (mutation summaries of sa/ownership.py)."""
+    from ..ownership import Ownership
+    own = Ownership(prog)
+    for mod, name in (("fixes", "_negate_condition"),):
+        fn = prog.funcs.get((mod, name))
+        if fn is None:
+            raise AnalysisError(f"anchor {mod}.{name} not found")
+        summ = own.summaries.get(fn.key)
+        for prm in fn.all_params:
+            what = summ.mutates.get(prm) if summ is not None else None
+            res.decide(what is None, "R17.8", fn.loc(), fn.fq, f"{name}: argument '{prm}' is left unmodified",
+                       "the negation is built from new nodes" if what is None else
+                       f"the condition passed in is modified in place ({what}): the un-negated condition the caller still uses changes with it")
+
+
 # ------------------------------------------------------------------------------------------------ R17.5
 def _r17_5(prog: Program, res: Result) -> None:
     fn = prog.func("symbolic_math", "simplify_boolean_expressions")
@@ -790,6 +841,18 @@ def _run_branch(stmts, state, c, cvar) -> None:
 from ..selftest import Variant  # noqa: E402
 
 VARIANTS = [
+    Variant("flags-initialised-once-before-the-loop", "FIRE", "symbolic_math",
+            "    for node in core.walk(root, ast.BoolOp):\n        if isinstance(node.op, (ast.And, ast.Or)):\n            # Find opposite expressions",
+            "    always_true = always_false = False\n    for node in core.walk(root, ast.BoolOp):\n        if isinstance(node.op, (ast.And, ast.Or)):\n            # Find opposite expressions",
+            "R17.7", extra=[("symbolic_math", "            always_true = False\n            always_false = False\n            for left, bounds in constant_bounds.items():", "            for left, bounds in constant_bounds.items():")]),
+    Variant("sets-cleared-instead-of-recreated", "SILENT", "symbolic_math",
+            "            redundant_and_values = set()\n            redundant_or_values = set()\n            always_true = False",
+            "            redundant_and_values.clear()\n            redundant_or_values.clear()\n            always_true = False",
+            extra=[("symbolic_math", "    for node in core.walk(root, ast.BoolOp):\n        if isinstance(node.op, (ast.And, ast.Or)):\n            # Find opposite expressions",
+                    "    redundant_and_values = set()\n    redundant_or_values = set()\n    for node in core.walk(root, ast.BoolOp):\n        if isinstance(node.op, (ast.And, ast.Or)):\n            # Find opposite expressions")]),
+    Variant("negation-flips-operator-in-place", "FIRE", "fixes",
+            "        return ast.Compare(\n            left=node.left, ops=[opposite_operator_type()], comparators=node.comparators\n        )\n",
+            "        node.ops = [opposite_operator_type()]\n        return node\n", "R17.8"),
     Variant("negation-table-gt-lt", "FIRE", "constants", "    ast.Gt: ast.LtE,\n", "    ast.Gt: ast.Lt,\n", "R17.1"),
     Variant("demorgan-and-stays-and", "FIRE", "fixes",
             "        return ast.BoolOp(op=ast.Or(), values=[_negate_condition(child) for child in node.values])",
